@@ -377,6 +377,7 @@ class CodeBuilder:
             f"format_name='{self.format_name}',"
             f"decoder={type_name(self.decoder)},"
             f"default_dialect={type_name(self.default_dialect)}"
+            f"{self._get_attrs_args()}"
             f").add_unpack_method()"
         )
         unpacker_args = [
@@ -384,7 +385,18 @@ class CodeBuilder:
             self.get_unpack_method_flags(pass_decoder=True),
         ]
         unpacker_args_s = ", ".join(filter(None, unpacker_args))
-        self.add_line(f"return cls.{method_name}({unpacker_args_s})")
+        holder = "cls" if self.is_nailed else "_cls"
+        self.add_line(f"return {holder}.{method_name}({unpacker_args_s})")
+
+    def _get_attrs_args(self) -> str:
+        # a method postponed by a codec must be compiled for that codec,
+        # not for the class itself
+        if self.is_nailed:
+            return ""
+        self.ensure_object_imported(self.attrs, "_cls")
+        attrs_registry = f"attrs_registry_{id(self.attrs_registry)}"
+        self.ensure_object_imported(self.attrs_registry, attrs_registry)
+        return f",attrs=_cls,attrs_registry={attrs_registry}"
 
     def _add_unpack_method_lines(self, method_name: str) -> None:
         config = self.get_config()
@@ -835,19 +847,29 @@ class CodeBuilder:
     def _add_pack_method_lines_lazy(self, method_name: str) -> None:
         if self.default_dialect is not None:
             self.add_type_modules(self.default_dialect)
+        if self.is_nailed:
+            cls_expr = "self.__class__"
+        else:
+            self.add_type_modules(self.cls)
+            cls_expr = self.get_type_name_identifier(self.cls)
         self.add_line(
             "CodeBuilder("
-            "self.__class__,"
+            f"{cls_expr},"
             f"first_method='{method_name}',"
             "allow_postponed_evaluation=False,"
             f"format_name='{self.format_name}',"
             f"encoder={type_name(self.encoder)},"
             f"encoder_kwargs={self._get_encoder_kwargs()},"
             f"default_dialect={type_name(self.default_dialect)}"
+            f"{self._get_attrs_args()}"
             ").add_pack_method()"
         )
         packer_args = self.get_pack_method_flags(pass_encoder=True)
-        self.add_line(f"return self.{method_name}({packer_args})")
+        if self.is_nailed:
+            self.add_line(f"return self.{method_name}({packer_args})")
+        else:
+            packer_args = ", ".join(filter(None, ("self", packer_args)))
+            self.add_line(f"return _cls.{method_name}({packer_args})")
 
     def _add_pack_method_lines(self, method_name: str) -> None:
         config = self.get_config()
